@@ -3,7 +3,7 @@
   window accesses, arguments and the one-line statements.
 -/
 import ExoModel.PrintStmt
-import ExoModel.Lemmas.PrintExpr
+import ExoModel.Lemmas.PrintExprX
 
 namespace Exo.PrintStmt
 open Exo Exo.Print
@@ -11,8 +11,8 @@ open Exo Exo.Print
 /-! ### well-formedness: what the round trip needs -/
 
 def wfAcc : WAcc → Bool
-  | .pt e => wf e
-  | .iv lo hi => wf lo && wf hi
+  | .pt e => wfX e
+  | .iv lo hi => wfX lo && wfX hi
 
 def wfAccs : List WAcc → Bool
   | [] => true
@@ -23,7 +23,7 @@ def wfAccs : List WAcc → Bool
 def wfWin (accs : List WAcc) : Bool := wfAccs accs && accs.any isIv
 
 def wfArg : PArg → Bool
-  | .e e => wf e
+  | .e e => wfX e
   | .win _ accs => wfWin accs
 
 def wfArgs : List PArg → Bool
@@ -33,94 +33,68 @@ def wfArgs : List PArg → Bool
 mutual
 def wfStmt : PStmt → Bool
   | .pass => true
-  | .assign _ idx rhs => wfL idx && wf rhs
-  | .reduce _ idx rhs => wfL idx && wf rhs
-  | .writeCfg _ _ rhs => wf rhs
-  | .alloc _ _ shape _ => wfL shape
+  | .assign _ idx rhs => wfXL idx && wfX rhs
+  | .reduce _ idx rhs => wfXL idx && wfX rhs
+  | .writeCfg _ _ rhs => wfX rhs
+  | .alloc _ _ shape _ => wfXL shape
   | .window _ _ accs => wfWin accs
-  | .loop _ _ lo hi body => wf lo && wf hi && !body.isEmpty && wfS body
-  | .ite c body orelse => wf c && !body.isEmpty && wfS body && wfS orelse
+  | .loop _ _ lo hi body => wfX lo && wfX hi && !body.isEmpty && wfS body
+  | .ite c body orelse => wfX c && !body.isEmpty && wfS body && wfS orelse
   | .call _ args => wfArgs args
 def wfS : List PStmt → Bool
   | [] => true
   | s :: ss => wfStmt s && wfS ss
 end
 
-/-! ### `tt` and `spanT` -/
+/-! ### one expression at the front of a line -/
 
-@[simp] theorem tt_nil : tt [] = [] := rfl
-@[simp] theorem tt_cons (a : Tok) (r : List Tok) : tt (a :: r) = .t a :: tt r := rfl
-theorem tt_append (a b : List Tok) : tt (a ++ b) = tt a ++ tt b := by simp [tt]
-
-theorem spanT_tt_append (a : List Tok) (ts : List STok) :
-    spanT (tt a ++ ts) = (a ++ (spanT ts).1, (spanT ts).2) := by
-  induction a with
-  | nil => simp
-  | cons x xs ih => simp [spanT, ih]
-
-theorem span_eq : ∀ ts : List STok, tt (spanT ts).1 ++ (spanT ts).2 = ts
-  | [] => by simp [spanT]
-  | .t a :: r => by simp [spanT, span_eq r]
-  | .colon :: r => by simp [spanT]
-  | .assign :: r => by simp [spanT]
-  | .pluseq :: r => by simp [spanT]
-  | .at :: r => by simp [spanT]
-  | .dot :: r => by simp [spanT]
-  | .kwFor :: r => by simp [spanT]
-  | .kwIn :: r => by simp [spanT]
-  | .kwIf :: r => by simp [spanT]
-  | .kwElse :: r => by simp [spanT]
-  | .kwPass :: r => by simp [spanT]
-  | .kwDef :: r => by simp [spanT]
-
-/-- what may follow a printed expression: not `[` (it would be read as a subscript) and not an
-    operator -/
+/-- what may follow a printed expression: not `[`, `(`, `.` (they would continue an atom) and not
+    an operator -/
 def StopOK : List STok → Prop
   | .t .lb :: _ => False
+  | .t .lp :: _ => False
+  | .dot :: _ => False
   | .t (.op _) :: _ => False
   | _ => True
 
-theorem stop_span : ∀ ts : List STok, StopOK ts →
-    headPrec (spanT ts).1 = 0 ∧ Follow (spanT ts).1
-  | [], _ => by simp [spanT, headPrec, Follow]
-  | .t (.id _) :: r, _ => by simp [spanT, headPrec, Follow]
-  | .t (.num _) :: r, _ => by simp [spanT, headPrec, Follow]
+theorem stop_props : ∀ ts : List STok, StopOK ts → headPrecX ts = 0 ∧ FollowX ts
+  | [], _ => ⟨rfl, trivial⟩
+  | .t (.id _) :: r, _ => ⟨rfl, trivial⟩
+  | .t (.num _) :: r, _ => ⟨rfl, trivial⟩
   | .t (.op _) :: r, h => by simp [StopOK] at h
-  | .t .lp :: r, _ => by simp [spanT, headPrec, Follow]
-  | .t .rp :: r, _ => by simp [spanT, headPrec, Follow]
+  | .t .lp :: r, h => by simp [StopOK] at h
+  | .t .rp :: r, _ => ⟨rfl, trivial⟩
   | .t .lb :: r, h => by simp [StopOK] at h
-  | .t .rb :: r, _ => by simp [spanT, headPrec, Follow]
-  | .t .comma :: r, _ => by simp [spanT, headPrec, Follow]
-  | .colon :: r, _ => by simp [spanT, headPrec, Follow]
-  | .assign :: r, _ => by simp [spanT, headPrec, Follow]
-  | .pluseq :: r, _ => by simp [spanT, headPrec, Follow]
-  | .at :: r, _ => by simp [spanT, headPrec, Follow]
-  | .dot :: r, _ => by simp [spanT, headPrec, Follow]
-  | .kwFor :: r, _ => by simp [spanT, headPrec, Follow]
-  | .kwIn :: r, _ => by simp [spanT, headPrec, Follow]
-  | .kwIf :: r, _ => by simp [spanT, headPrec, Follow]
-  | .kwElse :: r, _ => by simp [spanT, headPrec, Follow]
-  | .kwPass :: r, _ => by simp [spanT, headPrec, Follow]
-  | .kwDef :: r, _ => by simp [spanT, headPrec, Follow]
-
-/-! ### one expression at the front of a line -/
+  | .t .rb :: r, _ => ⟨rfl, trivial⟩
+  | .t .comma :: r, _ => ⟨rfl, trivial⟩
+  | .colon :: r, _ => ⟨rfl, trivial⟩
+  | .assign :: r, _ => ⟨rfl, trivial⟩
+  | .pluseq :: r, _ => ⟨rfl, trivial⟩
+  | .at :: r, _ => ⟨rfl, trivial⟩
+  | .dot :: r, h => by simp [StopOK] at h
+  | .kwFor :: r, _ => ⟨rfl, trivial⟩
+  | .kwIn :: r, _ => ⟨rfl, trivial⟩
+  | .kwIf :: r, _ => ⟨rfl, trivial⟩
+  | .kwElse :: r, _ => ⟨rfl, trivial⟩
+  | .kwPass :: r, _ => ⟨rfl, trivial⟩
+  | .kwDef :: r, _ => ⟨rfl, trivial⟩
+  | .kwAssert :: r, _ => ⟨rfl, trivial⟩
 
 /-- the expression round trip inside a line: a printed well-formed expression followed by
-    anything that is neither `[` nor an operator is read back, the rest is untouched -/
-theorem parseES_rt (e : PExpr) (h : wf e = true) (ts : List STok) (hs : StopOK ts) :
-    parseES (tt (ppT 0 e) ++ ts) = some (norm e, ts) := by
-  obtain ⟨h0, hfo⟩ := stop_span ts hs
-  have hb := need_le e 0
-  have := rt_item e (rt_all e h) (spanT ts).1 (fuelFor (ppT 0 e ++ (spanT ts).1)) h0 hfo
-    (by simp only [fuelFor, List.length_append]; omega)
-  simp only [parseES, spanT_tt_append, this, span_eq]
+    anything that cannot continue it is read back, the rest is untouched -/
+theorem parseES_rt (e : XExpr) (h : wfX e = true) (ts : List STok) (hs : StopOK ts) :
+    parseES (ppX 0 e ++ ts) = some (normX e, ts) := by
+  obtain ⟨h0, hfo⟩ := stop_props ts hs
+  have hb := needX_le e 0
+  exact rtX_item e (rtX_all e h) ts (fuelX (ppX 0 e ++ ts)) h0 hfo
+    (by simp only [fuelX, List.length_append]; omega)
 
-theorem parseES_full (e : PExpr) (h : wf e = true) :
-    parseES (tt (ppT 0 e)) = some (norm e, []) := by
+theorem parseES_full (e : XExpr) (h : wfX e = true) :
+    parseES (ppX 0 e) = some (normX e, []) := by
   have := parseES_rt e h [] trivial
   simpa using this
 
-theorem parseFull_rt (e : PExpr) (h : wf e = true) : parseFull (tt (ppT 0 e)) = some (norm e) := by
+theorem parseFull_rt (e : XExpr) (h : wfX e = true) : parseFull ((ppX 0 e)) = some (normX e) := by
   simp [parseFull, parseES_full e h]
 
 theorem stop_colon (r) : StopOK (.colon :: r) := trivial
@@ -149,7 +123,7 @@ theorem parseAcc_rt (a : WAcc) (h : wfAcc a = true) (ts : List STok) (hs : AccSt
     obtain ⟨r, rfl | rfl⟩ := hs <;> rfl
   | iv lo hi =>
     simp only [wfAcc, Bool.and_eq_true] at h
-    have h1 := parseES_rt lo h.1 (.colon :: (tt (ppT 0 hi) ++ ts)) (stop_colon _)
+    have h1 := parseES_rt lo h.1 (.colon :: ((ppX 0 hi) ++ ts)) (stop_colon _)
     have h2 := parseES_rt hi h.2 ts hs.stop
     simp only [ppAccT, List.append_assoc, List.cons_append, parseAcc, h1, h2, normAcc]
 
@@ -170,19 +144,9 @@ theorem parseAccs_rt : ∀ (as : List WAcc) (a : WAcc), wfAcc a = true → wfAcc
     have h2 := parseAccs_rt bs b hbs.1 hbs.2 F r (by omega)
     simp only [ppAccsTailT, List.cons_append, List.append_assoc, parseAccs, h1, h2, normAccs]
 
-theorem ppT_length_pos : ∀ (p : Nat) (e : PExpr), 1 ≤ (ppT p e).length
-  | _, .var x [] => by simp [ppT]
-  | _, .var x (i :: is) => by simp [ppT]
-  | _, .const false m => by simp [ppT]
-  | _, .const true m => by simp [ppT]
-  | _, .neg e => by simp [ppT]
-  | p, .bin o l r => by
-    simp only [ppT]
-    split <;> simp only [List.length_cons, List.length_append] <;> omega
-
 theorem ppAccT_length_pos (a : WAcc) : 1 ≤ (ppAccT a).length := by
   cases a with
-  | pt e => simpa [ppAccT, tt] using ppT_length_pos 0 e
+  | pt e => simpa [ppAccT] using ppX_length_pos 0 e
   | iv lo hi => simp only [ppAccT, List.length_append, List.length_cons]; omega
 
 theorem ppAccsTailT_length (as : List WAcc) : as.length ≤ (ppAccsTailT as).length := by
@@ -218,84 +182,85 @@ theorem parseWin_rt (x : String) (accs : List WAcc) (h : wfWin accs = true) (r :
 
 /-! ### a window expression is not read as an expression -/
 
-/-- the expression tokens of a subscript list up to its first `:` -/
-def preColon : List WAcc → List Tok
-  | [] => []
-  | .iv lo _ :: _ => ppT 0 lo
-  | .pt e :: as => ppT 0 e ++ .comma :: preColon as
-
-theorem span_preColon : ∀ (as : List WAcc) (a : WAcc) (ts : List STok),
-    (a :: as).any isIv = true →
-    (spanT (ppAccT a ++ (ppAccsTailT as ++ ts))).1 = preColon (a :: as)
-  | as, .iv lo hi, ts, _ => by
-    simp [ppAccT, preColon, spanT_tt_append, spanT]
-  | [], .pt e, ts, h => by simp [isIv] at h
-  | b :: bs, .pt e, ts, h => by
-    have h' : (b :: bs).any isIv = true := by simpa [isIv] using h
-    have ih := span_preColon bs b ts h'
-    have hp : ppAccT (.pt e) = tt (ppT 0 e) := rfl
-    rw [hp]
-    simp only [ppAccsTailT, List.cons_append, List.append_assoc, spanT_tt_append, spanT,
-      ih, preColon]
-
 /-- fuel with which the failure below is reached -/
 def needP : List WAcc → Nat
   | [] => 0
-  | .iv lo _ :: _ => need lo + 2
-  | .pt e :: as => need e + needP as + 2
+  | .iv lo _ :: _ => needX lo + 2
+  | .pt e :: as => needX e + needP as + 2
 
+theorem stop_accsTail (as : List WAcc) (h : as.any isIv = true) (r : List STok) :
+    StopOK (ppAccsTailT as ++ r) := by
+  cases as with
+  | nil => simp at h
+  | cons a as => simp [ppAccsTailT, StopOK]
+
+theorem parseTailX_colon (G : Nat) (r : List STok) :
+    parseTailX (G + 1) (.colon :: r) = some ([], .colon :: r) := by
+  simp [parseTailX]
+
+/-- the subscript loop runs into the first `:` -/
 theorem tail_eats : ∀ (as : List WAcc), wfAccs as = true → as.any isIv = true →
-    ∀ F, needP as ≤ F → ∃ l, parseTail F (.comma :: preColon as) = some (l, [])
-  | [], _, h, _, _ => by simp at h
-  | .iv lo hi :: as, hw, _, F, hF => by
+    ∀ (r : List STok) (F : Nat), needP as ≤ F →
+    ∃ l r', parseTailX F (ppAccsTailT as ++ r) = some (l, .colon :: r')
+  | [], _, h, _, _, _ => by simp at h
+  | .iv lo hi :: as, hw, _, r, F, hF => by
     simp only [wfAccs, wfAcc, Bool.and_eq_true] at hw
     simp only [needP] at hF
     obtain ⟨G, rfl⟩ : ∃ G, F = G + 2 := ⟨F - 2, by omega⟩
-    have h1 := rt_item lo (rt_all lo hw.1.1) [] (G + 1) rfl trivial (by omega)
-    simp only [List.append_nil] at h1
-    exact ⟨[norm lo], by simp [preColon, parseTail, h1]⟩
-  | .pt e :: as, hw, ha, F, hF => by
+    have h1 := rtX_item lo (rtX_all lo hw.1.1) (.colon :: (ppX 0 hi ++ (ppAccsTailT as ++ r)))
+      (G + 1) rfl trivial (by omega)
+    refine ⟨[normX lo], ppX 0 hi ++ (ppAccsTailT as ++ r), ?_⟩
+    simp only [ppAccsTailT, ppAccT, List.cons_append, List.append_assoc, parseTailX, h1]
+  | .pt e :: as, hw, ha, r, F, hF => by
     simp only [wfAccs, wfAcc, Bool.and_eq_true] at hw
     simp only [needP] at hF
     have ha' : as.any isIv = true := by simpa [isIv] using ha
     obtain ⟨G, rfl⟩ : ∃ G, F = G + 1 := ⟨F - 1, by omega⟩
-    have h1 := rt_item e (rt_all e hw.1) (.comma :: preColon as) G rfl trivial (by omega)
-    obtain ⟨l, h2⟩ := tail_eats as hw.2 ha' G (by omega)
-    exact ⟨norm e :: l, by simp [preColon, parseTail, h1, h2]⟩
+    obtain ⟨h0, hfo⟩ := stop_props _ (stop_accsTail as ha' r)
+    have h1 := rtX_item e (rtX_all e hw.1) (ppAccsTailT as ++ r) G h0 hfo (by omega)
+    obtain ⟨l, r', h2⟩ := tail_eats as hw.2 ha' r G (by omega)
+    refine ⟨normX e :: l, r', ?_⟩
+    simp only [ppAccsTailT, ppAccT, List.cons_append, List.append_assoc, parseTailX, h1, h2]
 
-theorem win_not_expr_big (x : String) : ∀ (as : List WAcc), wfAccs as = true →
-    as.any isIv = true → ∀ F, needP as + 2 ≤ F →
-    parseExpr F 0 (.id x :: .lb :: preColon as) = none
-  | [], _, h, _, _ => by simp at h
-  | .iv lo hi :: as, hw, _, F, hF => by
-    simp only [wfAccs, wfAcc, Bool.and_eq_true] at hw
+theorem win_not_expr_big (x : String) (a : WAcc) (as : List WAcc)
+    (hw : wfAccs (a :: as) = true) (ha : (a :: as).any isIv = true) (r : List STok) (F : Nat)
+    (hF : needP (a :: as) + 2 ≤ F) :
+    parseExprX F 0 (.t (.id x) :: .t .lb :: (ppAccT a ++ (ppAccsTailT as ++ r))) = none := by
+  simp only [wfAccs, Bool.and_eq_true] at hw
+  cases a with
+  | iv lo hi =>
+    simp only [wfAcc, Bool.and_eq_true] at hw
     simp only [needP] at hF
     obtain ⟨G, rfl⟩ : ∃ G, F = G + 2 := ⟨F - 2, by omega⟩
-    have h1 := rt_item lo (rt_all lo hw.1.1) [] G rfl trivial (by omega)
-    simp only [List.append_nil] at h1
-    have ht : parseTail G [] = some ([], []) := by
-      obtain ⟨G', rfl⟩ : ∃ G', G = G' + 1 := ⟨G - 1, by have := need_pos lo; omega⟩
-      simp [parseTail]
-    simp only [preColon, parseExpr, parseUnary, h1, ht]
-  | .pt e :: as, hw, ha, F, hF => by
-    simp only [wfAccs, wfAcc, Bool.and_eq_true] at hw
+    have h1 := rtX_item lo (rtX_all lo hw.1.1) (.colon :: (ppX 0 hi ++ (ppAccsTailT as ++ r)))
+      G rfl trivial (by omega)
+    have ht : parseTailX G (.colon :: (ppX 0 hi ++ (ppAccsTailT as ++ r)))
+        = some ([], .colon :: (ppX 0 hi ++ (ppAccsTailT as ++ r))) := by
+      obtain ⟨G', rfl⟩ : ∃ G', G = G' + 1 := ⟨G - 1, by have := needX_pos lo; omega⟩
+      exact parseTailX_colon _ _
+    simp only [ppAccT, List.cons_append, List.append_assoc, parseExprX, parseUnaryX, h1, ht]
+  | pt e =>
+    simp only [wfAcc] at hw
     simp only [needP] at hF
     have ha' : as.any isIv = true := by simpa [isIv] using ha
     obtain ⟨G, rfl⟩ : ∃ G, F = G + 2 := ⟨F - 2, by omega⟩
-    have h1 := rt_item e (rt_all e hw.1) (.comma :: preColon as) G rfl trivial (by omega)
-    obtain ⟨l, h2⟩ := tail_eats as hw.2 ha' G (by omega)
-    simp only [preColon, parseExpr, parseUnary, h1, h2]
+    obtain ⟨h0, hfo⟩ := stop_props _ (stop_accsTail as ha' r)
+    have h1 := rtX_item e (rtX_all e hw.1) (ppAccsTailT as ++ r) G h0 hfo (by omega)
+    obtain ⟨l, r', h2⟩ := tail_eats as hw.2 ha' r G (by omega)
+    simp only [ppAccT, parseExprX, parseUnaryX, h1, h2]
 
-theorem win_not_expr (x : String) (as : List WAcc) (hw : wfAccs as = true)
-    (ha : as.any isIv = true) (g : Nat) :
-    parseExpr g 0 (.id x :: .lb :: preColon as) = none := by
-  cases hg : parseExpr g 0 (.id x :: .lb :: preColon as) with
-  | none => rfl
-  | some r =>
-    have hbig := win_not_expr_big x as hw ha (max g (needP as + 2)) (Nat.le_max_right _ _)
-    have := parseExpr_mono hg (Nat.le_max_left g (needP as + 2))
-    rw [hbig] at this
-    exact absurd this (by simp)
+theorem needP_le : ∀ (as : List WAcc) (a : WAcc), (a :: as).any isIv = true →
+    needP (a :: as) ≤ 4 * (ppAccT a ++ ppAccsTailT as).length
+  | as, .iv lo hi, _ => by
+    have := needX_le lo 0
+    simp only [needP, ppAccT, List.length_append, List.length_cons]; omega
+  | [], .pt e, h => by simp [isIv] at h
+  | b :: bs, .pt e, h => by
+    have h' : (b :: bs).any isIv = true := by simpa [isIv] using h
+    have ih := needP_le bs b h'
+    have := needX_le e 0
+    simp only [needP, ppAccT, ppAccsTailT, List.length_append, List.length_cons] at ih ⊢
+    omega
 
 theorem parseES_win_none (x : String) (accs : List WAcc) (h : wfWin accs = true)
     (r : List STok) : parseES (ppWinT x accs ++ r) = none := by
@@ -303,10 +268,15 @@ theorem parseES_win_none (x : String) (accs : List WAcc) (h : wfWin accs = true)
   cases accs with
   | nil => simp at h
   | cons a as =>
-    have hs := span_preColon as a (.t .rb :: r) h.2
-    have hsp : (spanT (ppWinT x (a :: as) ++ r)).1 = .id x :: .lb :: preColon (a :: as) := by
-      simp only [ppWinT, ppAccsT, List.cons_append, List.append_assoc, List.nil_append, spanT, hs]
-    simp only [parseES, hsp, win_not_expr x (a :: as) h.1 h.2]
+    have hb := needP_le as a h.2
+    have := win_not_expr_big x a as h.1 h.2 (.t .rb :: r)
+      (fuelX (ppWinT x (a :: as) ++ r))
+      (by
+        simp only [fuelX, ppWinT, ppAccsT, List.length_append, List.length_cons,
+          List.length_nil] at hb ⊢
+        omega)
+    simpa only [parseES, ppWinT, ppAccsT, List.cons_append, List.append_assoc,
+      List.nil_append] using this
 
 /-! ### arguments -/
 
@@ -339,7 +309,7 @@ theorem parseArgsTail_rt : ∀ (as : List PArg), wfArgs as = true →
 
 theorem ppArgT_length_pos (a : PArg) : 1 ≤ (ppArgT a).length := by
   cases a with
-  | e e => simpa [ppArgT, tt] using ppT_length_pos 0 e
+  | e e => simpa [ppArgT] using ppX_length_pos 0 e
   | win x accs => simp [ppArgT, ppWinT]
 
 theorem ppArgsTailT_length (as : List PArg) : as.length ≤ (ppArgsTailT as).length := by
@@ -349,29 +319,9 @@ theorem ppArgsTailT_length (as : List PArg) : as.length ≤ (ppArgsTailT as).len
     have := ppArgT_length_pos a
     simp only [ppArgsTailT, List.length_cons, List.length_append]; omega
 
-/-- the first token of a printed expression is never `)` -/
-theorem ppT_head_ne_rp : ∀ (p : Nat) (e : PExpr), (ppT p e).head? ≠ some .rp
-  | _, .var x [] => by simp [ppT]
-  | _, .var x (i :: is) => by simp [ppT]
-  | _, .const false m => by simp [ppT]
-  | _, .const true m => by simp [ppT]
-  | _, .neg e => by simp [ppT]
-  | p, .bin o l r => by
-    have ih := ppT_head_ne_rp (prec o) l
-    simp only [ppT]
-    split
-    · simp
-    · cases hl : ppT (prec o) l with
-      | nil => simp
-      | cons a as => rw [hl] at ih; simpa using ih
-
 theorem ppArgT_head_ne_rp (a : PArg) : (ppArgT a).head? ≠ some (.t .rp) := by
   cases a with
-  | e e =>
-    have := ppT_head_ne_rp 0 e
-    cases h : ppT 0 e with
-    | nil => simp [ppArgT, h]
-    | cons b bs => rw [h] at this; simp [ppArgT, h]; simpa using this
+  | e e => simpa [ppArgT] using ppX_head_ne_rp 0 e
   | win x accs => simp [ppArgT, ppWinT]
 
 theorem parseCallArgs_ne (ts : List STok) (h : ts ≠ [.t .rp]) :
